@@ -241,7 +241,7 @@ func c18After(c *core.Ctx, e *hostile.Env, what string, allowed, leadership bool
 		return nil
 	}
 	if !allowed {
-		if d := pre.Diff(post, leadership); d != "" {
+		if d := pre.Diff(post, leadership, true); d != "" {
 			c.Violate(class, "%s was not authorised but had a side effect: %s", what, d)
 			return post
 		}
